@@ -13,7 +13,7 @@ Lemma exit_codes : parse_error_code guards = 2 /\ import_error_code guards = 1 /
 Proof. repeat split. Qed.
 
 Theorem current_never_crashes fs post :
-  Forall unguarded_stages_dont_panic fs -> post <> RPanic -> compile guards fs post <> OCrash.
+  Forall unguarded_stages_dont_panic fs -> compile guards fs post <> OCrash.
 Proof. apply compile_never_crashes, guards_ok. Qed.
 
 Theorem current_error_status fs post c : compile guards fs post = OError c -> c = 1 \/ c = 2.
